@@ -60,8 +60,11 @@ class C11(PipelineProp):
             a = rng.choice([1, 40001])
             n1, n2 = rng.choice([1, 5, 400]), rng.choice([1, 7, 500])
             s1 = rng.choice([1, -1])
-            first = ["F", f"ctg{k + 1}", a, a + n1 - 1, s1, []]
-            second = ["F", f"ctg{k + 1}", a + n1, a + n1 + n2 - 1, -s1, []]
+            # ... still carrying the earlier round's Cut tags (they survive in the curated AGP that is the
+            # input now), on the same strand (a plain cut) or on opposite strands (one piece was flipped)
+            tg = ["Cut"] if rng.random() < 0.5 else []
+            first = ["F", f"ctg{k + 1}", a, a + n1 - 1, s1, list(tg)]
+            second = ["F", f"ctg{k + 1}", a + n1, a + n1 + n2 - 1, s1 if rng.random() < 0.4 else -s1, list(tg)]
             if rng.random() < 0.5:
                 first, second = second, first
             for piece in (first, second):
